@@ -3,9 +3,11 @@
 package repl
 
 import (
+	"context"
 	"strings"
 
 	"fortio.org/terminal"
+	"grol.io/grol/eval"
 )
 
 func init() {
@@ -51,10 +53,13 @@ func VerifCompletion(args []string) {
 			words = append(words, w)
 		}
 	}
-	typed := verifWord("typed", maxQ, alphabet)
+	line := verifWord("typed", maxQ, alphabet)
+	// the cursor is anywhere in the line: what is before it is completed, what is after it stays
+	pos := vRange("cursor", 0, len(line))
+	typed, tail := line[:pos], line[pos:]
 	out := &strings.Builder{}
 	t := &terminal.Terminal{Out: out}
-	newLine, newPos, ok := a.autoCompleteCallback(t, typed, len(typed))
+	newLine, newPos, ok := a.autoCompleteCallback(t, line, pos)
 	if !ok {
 		for _, w := range words {
 			vAssert(!verifHasPrefix(w, typed), "completion/offered-when-a-word-matches")
@@ -62,13 +67,68 @@ func VerifCompletion(args []string) {
 		return
 	}
 	vReach("completion offered")
-	vAssert(newPos == len(newLine), "completion/cursor-at-end")
-	vAssert(verifHasPrefix(newLine, typed), "completion/extends-typed-text")
+	if tail != "" {
+		vReach("completion with text after the cursor")
+	}
+	vAssert(newPos >= 0 && newPos <= len(newLine), "completion/cursor-inside-the-line")
+	if newPos < 0 || newPos > len(newLine) {
+		return
+	}
+	vAssert(newLine[newPos:] == tail, "completion/text-after-the-cursor-kept")
+	completed := newLine[:newPos]
+	vAssert(verifHasPrefix(completed, typed), "completion/extends-typed-text")
 	found := false
 	for _, w := range words {
-		if verifHasPrefix(w, newLine) {
+		if verifHasPrefix(w, completed) {
 			found = true
 		}
 	}
 	vAssert(found, "completion/result-is-prefix-of-a-defined-word")
+}
+
+func init() {
+	verifHarness["VerifCompletionIds"] = VerifCompletionIds
+}
+
+// VerifCompletionIds: what the interpreter registers for completion is what is defined: after a session, name,
+// "name " (variables) or "name(" (functions) complete for every global the session defined, and for nothing a
+// rejected assignment tried to bind. args: probe names (comma separated), inputs...
+func VerifCompletionIds(args []string) {
+	probes := strings.Split(args[0], ",")
+	s := eval.NewState()
+	sb := &strings.Builder{}
+	s.Out, s.LogOut, s.NoLog = sb, sb, true
+	s.MaxDepth = 60
+	c := NewCompletion()
+	s.RegisterTrie(c.Trie)
+	eval.VerifBindInt(s, "a", vInt64("a"))
+	opts := Options{All: true, ShowEval: true, NoColor: true}
+	for _, in := range args[1:] {
+		_, _, _, _ = EvalOne(context.Background(), s, in, sb, opts)
+	}
+	globals := eval.VerifGlobalKinds(s)
+	for _, name := range probes {
+		kind, defined := globals[name]
+		_, all := c.Trie.PrefixAll(name)
+		has := func(w string) bool {
+			for _, x := range all {
+				if x == w {
+					return true
+				}
+			}
+			return false
+		}
+		if defined {
+			vReach("defined name probed")
+			vAssert(has(name), "registration/defined-name-missing")
+			if kind == "func" {
+				vAssert(has(name+"("), "registration/function-not-offered-as-a-call")
+			} else {
+				vAssert(has(name+" "), "registration/variable-not-offered")
+			}
+		} else {
+			vReach("undefined name probed")
+			vAssert(!has(name) && !has(name+" ") && !has(name+"("), "registration/never-defined-name-offered")
+		}
+	}
 }
